@@ -23,25 +23,27 @@ static std::string tohex(const std::string &s) { std::string o; char b[4]; for (
 static std::string fromhex(const std::string &h) { std::string o; for (size_t i = 0; i + 1 < h.size(); i += 2) o += (char)strtol(h.substr(i, 2).c_str(), nullptr, 16); return o; }
 
 // ===================================================================== C19
-struct C19Case { std::string content; int combo = DEFAULT_COMBO; int mode = 0 /*0 plain 1 counting*/; int chunk = 16; int start = 0; int special = 0 /*0 regular file 1 nonexistent 2 directory 3 bin file at offsets*/; };
-static std::string ser19(const C19Case &c) { return "C19|" + std::to_string(c.combo) + "|" + std::to_string(c.mode) + "|" + std::to_string(c.chunk) + "|" + std::to_string(c.start) + "|" + std::to_string(c.special) + "|" + tohex(c.content); }
-static bool parse19(const std::string &s, C19Case &c) { auto f = split(s, '|'); if (f.size() < 6 || f[0] != "C19") return false; c.combo = atoi(f[1].c_str()); c.mode = atoi(f[2].c_str()); c.chunk = atoi(f[3].c_str()); c.start = atoi(f[4].c_str()); c.special = atoi(f[5].c_str()); c.content = f.size() > 6 ? fromhex(f[6]) : ""; return true; }
+struct C19Case { std::string content; int combo = DEFAULT_COMBO; int mode = 0 /*0 plain 1 counting*/; int chunk = 16; int start = 0; int special = 0 /*0 regular file 1 nonexistent 2 directory 3 bin file at offsets*/; int fit = 0 /*chunk fitting set on both instances beforehand*/; int nbuf = 1 << 16; uint64_t pre = 0; };
+static std::string ser19(const C19Case &c) { return "C19|" + std::to_string(c.combo) + "|" + std::to_string(c.mode) + "|" + std::to_string(c.chunk) + "|" + std::to_string(c.start) + "|" + std::to_string(c.special) + ":" + std::to_string(c.fit) + ":" + std::to_string(c.nbuf) + ":" + std::to_string(c.pre) + "|" + tohex(c.content); }
+static bool parse19(const std::string &s, C19Case &c) { auto f = split(s, '|'); if (f.size() < 6 || f[0] != "C19") return false; c.combo = atoi(f[1].c_str()); c.mode = atoi(f[2].c_str()); c.chunk = atoi(f[3].c_str()); c.start = atoi(f[4].c_str()); { auto g = split(f[5], ':'); c.special = atoi(g[0].c_str()); c.fit = g.size() > 1 ? atoi(g[1].c_str()) : 0; c.nbuf = g.size() > 2 ? atoi(g[2].c_str()) : 1 << 16; c.pre = g.size() > 3 ? strtoull(g[3].c_str(), nullptr, 10) : 0; } c.content = f.size() > 6 ? fromhex(f[6]) : ""; return true; }
 struct FV { bool ok = true; std::string symptom, detail; };
 
 static FV check19(const C19Case &c) {
   FV v; auto bad = [&](const std::string &s, const std::string &d) { v.ok = false; v.symptom = s; v.detail = d; return v; };
-  const int N = 1 << 16; std::vector<uint8_t> bs(N, 0xcc), bf(N, 0xcc);
+  const int N = c.nbuf; std::vector<uint8_t> bs(N + 1, 0xcc), bf(N + 1, 0xcc);
+  static const std::vector<std::string> PRE = {"mov rax, rbx", "add rcx, 5", "vpaddd ymm1, ymm2, ymm3"};
+  auto prepare = [&](assemblyline_t x) { spec::Opts o = combo_opts(c.combo); if (c.pre && N >= 64) prelife(x, c.pre, o.mov, o.swap, o.nobase, PRE); else al::apply_opts(x, o, (unsigned)c.start); if (c.fit) asm_set_chunk_size(x, c.fit); asm_set_offset(x, std::min(c.start, N)); };
   std::string path = tmpdir() + "/in.asm";
   if (c.special == 1) path = tmpdir() + "/does-not-exist.asm"; else if (c.special == 2) path = tmpdir(); else if (!write_file(path, c.content)) return bad("harness", "cannot write " + path);
   if (have_fi()) alw.guard_files = 1;
-  assemblyline_t f = asm_create_instance(bf.data(), N); al::apply_opts(f, combo_opts(c.combo)); asm_set_offset(f, c.start);
+  assemblyline_t f = asm_create_instance(bf.data(), N); prepare(f);
   int cf = -7, rf;
   std::vector<char> pth(path.begin(), path.end()); pth.push_back(0);
   if (c.mode == 1) rf = asm_assemble_file_counting_chunks(f, pth.data(), c.chunk, &cf); else rf = (c.content.size() & 1) ? assemble_file(f, pth.data()) : asm_assemble_file(f, pth.data());
   int of = asm_get_offset(f);
   if (have_fi()) alw.guard_files = 0;
   if (c.special == 1 || c.special == 2) { asm_destroy_instance(f); if (rf != EXIT_FAILURE) return bad("missing-file-accepted", std::string(c.special == 1 ? "nonexistent path" : "directory") + " returned " + std::to_string(rf)); return v; }
-  assemblyline_t s = asm_create_instance(bs.data(), N); al::apply_opts(s, combo_opts(c.combo)); asm_set_offset(s, c.start);
+  assemblyline_t s = asm_create_instance(bs.data(), N); prepare(s);
   int cs = -7, rs; std::vector<char> w(c.content.begin(), c.content.end()); w.push_back(0);
   if (c.mode == 1) rs = asm_assemble_string_counting_chunks(s, w.data(), c.chunk, &cs); else rs = asm_assemble_str(s, w.data());
   int os_ = asm_get_offset(s);
@@ -54,7 +56,8 @@ static FV check19(const C19Case &c) {
   if (res.ok && rf == 0 && c.special == 3) {
     std::string bin = tmpdir() + "/out.bin"; unlink(bin.c_str());
     int rb = asm_create_bin_file(f, bin.c_str()); std::string got;
-    if (rb != 0) res = bad("bin-file", "asm_create_bin_file returned " + std::to_string(rb));
+    if (of < 0 || of > N) res = bad("offset", "offset outside the buffer");
+    else if (rb != 0) res = bad("bin-file", "asm_create_bin_file returned " + std::to_string(rb));
     else if (!read_all(bin, got) && of != 0) res = bad("bin-file", "output file missing");
     else if ((int)got.size() != of || memcmp(got.data(), bf.data(), of)) res = bad("bin-file", "file holds " + std::to_string(got.size()) + " bytes, offset is " + std::to_string(of) + (got.size() == (size_t)of ? " (content differs)" : ""));
     if (res.ok) { int k = of / 2; asm_set_offset(f, k); /* same path, now longer than the code: must be replaced, not patched */ rb = asm_create_bin_file(f, bin.c_str()); got.clear(); read_all(bin, got); if (rb != 0 || (int)got.size() != k || memcmp(got.data(), bf.data(), k)) res = bad("bin-file", "after asm_set_offset(" + std::to_string(k) + ") the file holds " + std::to_string(got.size()) + " bytes"); }
@@ -89,8 +92,10 @@ void prop_c19(hz::Ctx &ctx) {
   for (size_t size : sizes) for (int rep = 0; rep < reps; rep++) for (int mode = 0; mode < 2; mode++) {
     bool failing = rep % 3 == 2, final_nl = rep & 1, crlf = (rep >> 1) & 1;
     C19Case c; c.content = sized_content(P, r, size, failing, final_nl, crlf); c.combo = (int)r.below(12); c.mode = mode; static const int CH[] = {0, 1, 2, 5, 16, 17, 64}; c.chunk = CH[r.below(7)]; c.start = r.below(3) == 0 ? (int)r.below(200) : 0; c.special = rep % 2 == 0 && mode == 0 ? 3 : 0;
+    { static const int FIT[] = {0, 0, 0, 8, 16, 17}; c.fit = FIT[r.below(6)]; if (r.below(4) == 0) c.pre = r.next() | 1; if (r.below(5) == 0) { c.nbuf = (int)r.below(80); c.start = c.start % (c.nbuf + 1); c.pre = 0; } }
     if (!ctx.take()) continue;
     std::string id = ser19(c); if (!ctx.begin(id, "file of " + std::to_string(size) + " bytes")) continue;
+    if (c.fit) ctx.cls("instance:chunk-fitting"); if (c.nbuf < 100) ctx.cls("buffer:small"); if (c.pre) ctx.cls("instance:previous-life");
     ctx.cls("part:sizes"); if (size == 0) ctx.cls("size:empty"); if (size && size % 4096 == 0) ctx.cls("size:page-multiple"); if (!final_nl) ctx.cls("no-final-newline"); if (crlf) ctx.cls("crlf"); if (c.special == 3) ctx.cls("bin-file"); if (mode) ctx.cls("counting");
     if (size == 0 || size % 4096 == 0 || !final_nl) ctx.nontrivial(id);
     FV v = check19(c);
@@ -99,7 +104,8 @@ void prop_c19(hz::Ctx &ctx) {
   }
   for (int sp = 1; sp <= 2; sp++) for (int mode = 0; mode < 2; mode++) { C19Case c; c.special = sp; c.mode = mode; if (!ctx.take()) continue; std::string id = ser19(c); if (!ctx.begin(id, sp == 1 ? "nonexistent path" : "directory")) continue; ctx.cls("part:missing"); ctx.nontrivial(id); FV v = check19(c); if (!v.ok) ctx.fail(fail19(c, v)); }
   // rapidcheck: arbitrary sizes up to several pages
-  auto gen_case = rc::gen::apply([&](int size, int seed, int combo, int mode, int chunk, bool nl, bool crlf, bool failing, int start) { hz::Rng rr((uint64_t)seed); C19Case c; c.content = sized_content(P, rr, (size_t)size, failing, nl, crlf); c.combo = combo; c.mode = mode; c.chunk = chunk; c.start = start; c.special = (seed & 3) == 0 ? 3 : 0; return c; },
+  auto gen_case = rc::gen::apply([&](int size, int seed, int combo, int mode, int chunk, bool nl, bool crlf, bool failing, int start) { hz::Rng rr((uint64_t)seed); C19Case c; c.content = sized_content(P, rr, (size_t)size, failing, nl, crlf); c.combo = combo; c.mode = mode; c.chunk = chunk - 3; c.start = start; c.special = (seed & 3) == 0 ? 3 : 0;
+      static const int FIT[] = {0, 0, 0, 8, 16, 17}; c.fit = FIT[(seed >> 4) % 6]; if (((seed >> 8) & 3) == 0) c.pre = (uint64_t)seed | 1; if (((seed >> 10) & 7) == 0) { c.nbuf = (seed >> 13) % 80; c.start %= (c.nbuf + 1); c.pre = 0; if (size > 200) c.content = sized_content(P, rr, (size_t)size % 60, failing, nl, crlf); } return c; },
     range(0, 17000), range(0, 1 << 30), range(0, 12), range(0, 2), range(0, 40), rc::gen::arbitrary<bool>(), rc::gen::arbitrary<bool>(), rc::gen::arbitrary<bool>(), range(0, 300));
   rc_rounds(ctx, "C19-files", ctx.thorough() ? 100000 : 12000, 100, [&]() {
     C19Case c = *gen_case; std::string id = ser19(c); if (!ctx.begin(id, "file of " + std::to_string(c.content.size()) + " bytes")) return;
@@ -129,7 +135,9 @@ static FI run17(const Pool &P, const C17Case &c) {
   write_file(inpath, c.scenario == 6 ? prog_long : prog_small);
   unlink(outpath.c_str());
   std::vector<uint8_t> ext(4096, 0xcc);
-  alw.guard_code = 1; alw_reset(); alw.fail_at = c.fail_at; alw.fail_at2 = c.fail_at2;
+  alw.guard_code = 1; alw.salt = (long)(c.seed % 1000003); alw_reset(); alw.fail_at = c.fail_at; alw.fail_at2 = c.fail_at2;
+  // growth scenarios also run with chunk fitting (sizes that do not divide the growth quantum) and as counting calls
+  static const int FIT[] = {0, 0, 13, 7, 17, 9, 100, 11}; int fit = (c.scenario == 2 || c.scenario == 6) ? FIT[c.seed % 8] : 0; bool counting_main = c.scenario == 2 && (c.seed % 5) == 3;
   auto api = [&](const char *name, const std::function<int()> &f, int &rc) -> bool { long before = alw.counter; alw.armed = 1; rc = f(); alw.armed = 0; bool hit = alw.failed_index > before && alw.failed_index <= alw.counter; if (hit) v.faulted = std::string(name) + " (" + alw_kind_name(alw.failed_kind) + " call #" + std::to_string(alw.failed_index) + ")"; v.trace += std::string(name) + "=" + std::to_string(rc) + (hit ? "[fault] " : " "); return hit; };
   assemblyline_t a = nullptr; int rc = 0; bool hit;
   // ---- create
@@ -147,8 +155,11 @@ static FI run17(const Pool &P, const C17Case &c) {
   int cnt = 0; std::vector<char> pth(inpath.begin(), inpath.end()); pth.push_back(0);
   switch (c.scenario) {
     case 0: case 1: break;
-    case 2: hit = api("asm_assemble_str(long)", [&] { return asm_assemble_str(a, prog_long.c_str()); }, rc); if (hit && rc != EXIT_FAILURE) { intact(""); asm_destroy_instance(a); return bad("fault-ignored", "growing the buffer failed (" + v.faulted + ") but the call returned " + std::to_string(rc)); } if (!hit && rc != 0) { asm_destroy_instance(a); return bad("harness", "long program failed without fault"); } break;
-    case 3: case 6: hit = api("asm_assemble_file", [&] { return asm_assemble_file(a, pth.data()); }, rc); if (hit && rc != EXIT_FAILURE) { asm_destroy_instance(a); return bad("fault-ignored", v.faulted + " failed but asm_assemble_file returned " + std::to_string(rc)); } if (!hit && rc != 0) { asm_destroy_instance(a); return bad("harness", "file program failed without fault"); } break;
+    case 2: if (fit) asm_set_chunk_size(a, fit);
+      hit = counting_main ? api("asm_assemble_string_counting_chunks(long)", [&] { std::vector<char> w(prog_long.begin(), prog_long.end()); w.push_back(0); int cc = 0; return asm_assemble_string_counting_chunks(a, w.data(), 16, &cc); }, rc)
+                          : api(fit ? "asm_assemble_str(long, chunk fitting)" : "asm_assemble_str(long)", [&] { return asm_assemble_str(a, prog_long.c_str()); }, rc); if (hit && rc != EXIT_FAILURE) { intact(""); asm_destroy_instance(a); return bad("fault-ignored", "growing the buffer failed (" + v.faulted + ") but the call returned " + std::to_string(rc)); } if (!hit && rc != 0) { asm_destroy_instance(a); return bad("harness", "long program failed without fault"); } break;
+    case 3: case 6: if (fit) asm_set_chunk_size(a, fit);
+      hit = api("asm_assemble_file", [&] { return asm_assemble_file(a, pth.data()); }, rc); if (hit && rc != EXIT_FAILURE) { asm_destroy_instance(a); return bad("fault-ignored", v.faulted + " failed but asm_assemble_file returned " + std::to_string(rc)); } if (!hit && rc != 0) { asm_destroy_instance(a); return bad("harness", "file program failed without fault"); } break;
     case 4: hit = api("asm_assemble_file_counting_chunks", [&] { return asm_assemble_file_counting_chunks(a, pth.data(), 16, &cnt); }, rc); if (hit && rc != EXIT_FAILURE) { asm_destroy_instance(a); return bad("fault-ignored", v.faulted + " failed but the call returned " + std::to_string(rc)); } if (!hit && rc != 0) { asm_destroy_instance(a); return bad("harness", "file program failed without fault"); } break;
     case 5: {
       hit = api("asm_create_bin_file", [&] { return asm_create_bin_file(a, outpath.c_str()); }, rc);
@@ -159,6 +170,11 @@ static FI run17(const Pool &P, const C17Case &c) {
       break; }
   }
   if (!intact("after the faulted call (" + v.faulted + ")")) { asm_destroy_instance(a); return v; }
+  if ((c.scenario == 2 || c.scenario == 6) && rc == EXIT_SUCCESS && !counting_main) {
+    // whatever happened underneath, a call that reports success must have produced the whole program
+    std::vector<uint8_t> big(1 << 20, 0); assemblyline_t e = asm_create_instance(big.data(), (int)big.size()); if (fit) asm_set_chunk_size(e, fit); asm_set_offset(e, off1); asm_assemble_str(e, prog_long.c_str()); int n = asm_get_offset(e); asm_destroy_instance(e);
+    if (asm_get_offset(a) != n || memcmp((uint8_t *)asm_get_code(a) + off1, big.data() + off1, n - off1)) { asm_destroy_instance(a); return bad("incomplete-success", "the call returned EXIT_SUCCESS (" + (v.faulted.empty() ? std::string("no fault") : v.faulted) + ") but its code differs from the caller-buffer result (offset " + std::to_string(asm_get_offset(a)) + " vs " + std::to_string(n) + ")"); }
+  }
   // ---- the instance stays usable: more code can be appended (and grows the buffer again) without corrupting anything
   if (c.scenario == 2 || c.scenario == 6 || c.scenario == 3) {
     int off_before = asm_get_offset(a);
@@ -167,8 +183,9 @@ static FI run17(const Pool &P, const C17Case &c) {
       if (!hit && rc != 0) { asm_destroy_instance(a); return bad("unusable", "after " + (v.faulted.empty() ? std::string("the scenario") : v.faulted) + " a further assembly from offset " + std::to_string(off_before) + " failed"); }
       if (!intact("after appending more code")) { asm_destroy_instance(a); return v; }
       if (rc == 0) { // the appended code must equal what a caller buffer gets
-        std::vector<uint8_t> big(1 << 20, 0); assemblyline_t e = asm_create_instance(big.data(), (int)big.size()); asm_assemble_str(e, prog_long.c_str()); int n = asm_get_offset(e); int off_after = asm_get_offset(a);
-        bool same = off_after - off_before == n && !memcmp((uint8_t *)asm_get_code(a) + off_before, big.data(), n); asm_destroy_instance(e);
+        // same chunk setting and same absolute position on the reference (padding depends on both)
+        std::vector<uint8_t> big(1 << 20, 0); assemblyline_t e = asm_create_instance(big.data(), (int)big.size()); if (fit) asm_set_chunk_size(e, fit); asm_set_offset(e, off_before); asm_assemble_str(e, prog_long.c_str()); int n = asm_get_offset(e); int off_after = asm_get_offset(a);
+        bool same = off_after == n && !memcmp((uint8_t *)asm_get_code(a) + off_before, big.data() + off_before, n - off_before); asm_destroy_instance(e);
         if (!same) { asm_destroy_instance(a); return bad("corrupted", "code appended after " + (v.faulted.empty() ? std::string("the scenario") : v.faulted) + " differs from the caller-buffer result"); }
       }
     }
